@@ -217,10 +217,7 @@ def check_wellformed(e: Expr, conds: Conditions) -> bool:
                 return (True,set())
         elif e.is_integral():
             conds2 = Conditions(conds)
-            if e.lower != NEG_INF:
-                conds2.add_condition(expr.Op(">", Var(e.var), e.lower))
-            if e.upper != POS_INF:
-                conds2.add_condition(expr.Op("<", Var(e.var), e.upper))
+            conds2.add_interval_condition(e.var, e.lower, e.upper)
             f1, tmp1 = check_wellformed(e.lower, conds)
             f2, tmp2 = check_wellformed(e.upper, conds)
             f3, tmp3 = check_wellformed(e.body, conds2)
@@ -890,8 +887,7 @@ class OnSubterm(Rule):
         elif e.is_integral():
             # When evaluating the body, add interval constraint to context
             ctx2 = Context(ctx)
-            ctx2.add_condition(expr.Op(">", Var(e.var), e.lower))
-            ctx2.add_condition(expr.Op("<", Var(e.var), e.upper))
+            ctx2.add_interval_condition(e.var, e.lower, e.upper)
             lower = self.eval(e.lower, ctx)
             upper = self.eval(e.upper, ctx)
             body = self.eval(e.body, ctx2)
@@ -966,8 +962,7 @@ class OnLocation(Rule):
                 return Fun(cur_e.func_name, *tuple(new_args))
             elif cur_e.is_integral():
                 ctx2 = Context(ctx)
-                ctx2.add_condition(expr.Op(">", Var(cur_e.var), cur_e.lower))
-                ctx2.add_condition(expr.Op("<", Var(cur_e.var), cur_e.upper))
+                ctx2.add_interval_condition(cur_e.var, cur_e.lower, cur_e.upper)
                 if loc.head == 0:
                     return Integral(cur_e.var, cur_e.lower, cur_e.upper, rec(cur_e.body, loc.rest, ctx2))
                 elif loc.head == 1:
@@ -1341,8 +1336,7 @@ class Substitution(Rule):
         dfx = deriv(e.var, var_subst, ctx)
         ctx2 = Context(ctx)
         if e.is_integral():
-            ctx2.add_condition(expr.Op(">", Var(e.var), e.lower))
-            ctx2.add_condition(expr.Op("<", Var(e.var), e.upper))
+            ctx2.add_interval_condition(e.var, e.lower, e.upper)
         if e.is_integral():
             conds2 = ctx2.get_conds()
             if not (conds2.is_not_negative(dfx) or conds2.is_not_positive(dfx)):
@@ -1641,8 +1635,7 @@ class IntegrationByParts(Rule):
 
         ctx2 = Context(ctx)
         if e.is_integral():
-            ctx2.add_condition(expr.Op(">", Var(e.var), e.lower))
-            ctx2.add_condition(expr.Op("<", Var(e.var), e.upper))
+            ctx2.add_interval_condition(e.var, e.lower, e.upper)
         conds = ctx2.get_conds()
         e.body = normalize(e.body, conds)
         du = deriv(e.var, self.u, ctx)
